@@ -254,6 +254,18 @@ ROUND9 = {
     'C18': ' Fault kinds include failing alias resolution; operations end with ordinary exceptions of several types.',
     'C20': ' The same output path may be sent twice after a rewrite with the same size and modification time.',
 }
+ROUND10 = {
+    'C04': ' Metadata extractors may discard the recording.',
+    'C11': ' The operation class may extend a class configured earlier without copy-on-interception.',
+    'C12': ' The same cassette object may be started again after close (refused loudly or stored).',
+    'C15': ' Fault kinds include bursts of refused (not applied) writes.',
+    'C18': ' Optionally an earlier run of the same operation class (other outcome, other user metadata) precedes the '
+           'measured run; its recording must stay as saved.',
+    'C19': ' The same studio object may be played twice with the tuner changing in between.',
+    'C20': ' The same input may be fetched twice to different paths.',
+}
+for _pid, _t in ROUND10.items():
+    ROUND9[_pid] = ROUND9.get(_pid, '') + _t
 for _pid, _t in ROUND9.items():
     CHECKS[_pid]['text'] += _t
 
